@@ -23,7 +23,59 @@ fn splitmix(s: &mut u64) -> u64 {
     z ^ (z >> 31)
 }
 
+// ---- a serializer that records which primitive it was handed, for either answer to is_human_readable() ----
+struct Rec {
+    human: bool,
+}
+#[derive(Debug)]
+struct RecErr;
+impl std::fmt::Display for RecErr {
+    fn fmt(&self, f: &mut std::fmt::Formatter<'_>) -> std::fmt::Result { f.write_str("rec") }
+}
+impl std::error::Error for RecErr {}
+impl serde::ser::Error for RecErr {
+    fn custom<T: std::fmt::Display>(_: T) -> Self { RecErr }
+}
+macro_rules! other {
+    ($($name:ident($($t:ty),*)),* $(,)?) => { $( fn $name(self $(, _: $t)*) -> Result<String, RecErr> { Ok(stringify!($name).to_string()) } )* };
+}
+impl serde::Serializer for Rec {
+    type Ok = String;
+    type Error = RecErr;
+    type SerializeSeq = serde::ser::Impossible<String, RecErr>;
+    type SerializeTuple = serde::ser::Impossible<String, RecErr>;
+    type SerializeTupleStruct = serde::ser::Impossible<String, RecErr>;
+    type SerializeTupleVariant = serde::ser::Impossible<String, RecErr>;
+    type SerializeMap = serde::ser::Impossible<String, RecErr>;
+    type SerializeStruct = serde::ser::Impossible<String, RecErr>;
+    type SerializeStructVariant = serde::ser::Impossible<String, RecErr>;
+    fn is_human_readable(&self) -> bool { self.human }
+    fn serialize_str(self, v: &str) -> Result<String, RecErr> { Ok(format!("str:{v}")) }
+    fn serialize_bytes(self, v: &[u8]) -> Result<String, RecErr> { Ok(format!("bytes:{}", hex(v))) }
+    other!(serialize_bool(bool), serialize_i8(i8), serialize_i16(i16), serialize_i32(i32), serialize_i64(i64), serialize_u8(u8),
+           serialize_u16(u16), serialize_u32(u32), serialize_u64(u64), serialize_f32(f32), serialize_f64(f64), serialize_char(char),
+           serialize_none(), serialize_unit(), serialize_unit_struct(&'static str));
+    fn serialize_some<T: ?Sized + serde::Serialize>(self, _: &T) -> Result<String, RecErr> { Ok("some".into()) }
+    fn serialize_unit_variant(self, _: &'static str, _: u32, _: &'static str) -> Result<String, RecErr> { Ok("unit_variant".into()) }
+    fn serialize_newtype_struct<T: ?Sized + serde::Serialize>(self, _: &'static str, _: &T) -> Result<String, RecErr> { Ok("newtype_struct".into()) }
+    fn serialize_newtype_variant<T: ?Sized + serde::Serialize>(self, _: &'static str, _: u32, _: &'static str, _: &T) -> Result<String, RecErr> { Ok("newtype_variant".into()) }
+    fn serialize_seq(self, _: Option<usize>) -> Result<Self::SerializeSeq, RecErr> { Err(RecErr) }
+    fn serialize_tuple(self, _: usize) -> Result<Self::SerializeTuple, RecErr> { Err(RecErr) }
+    fn serialize_tuple_struct(self, _: &'static str, _: usize) -> Result<Self::SerializeTupleStruct, RecErr> { Err(RecErr) }
+    fn serialize_tuple_variant(self, _: &'static str, _: u32, _: &'static str, _: usize) -> Result<Self::SerializeTupleVariant, RecErr> { Err(RecErr) }
+    fn serialize_map(self, _: Option<usize>) -> Result<Self::SerializeMap, RecErr> { Err(RecErr) }
+    fn serialize_struct(self, _: &'static str, _: usize) -> Result<Self::SerializeStruct, RecErr> { Err(RecErr) }
+    fn serialize_struct_variant(self, _: &'static str, _: u32, _: &'static str, _: usize) -> Result<Self::SerializeStructVariant, RecErr> { Err(RecErr) }
+}
+
 fn check_str(s: &str) {
+    // the same primitive, with the same payload, as String — whatever the serializer says about human readability
+    for human in [true, false] {
+        use serde::Serialize;
+        let a = LeanString::from(s).serialize(Rec { human }).ok();
+        let b = String::from(s).serialize(Rec { human }).ok();
+        if a != b { report(format!("serialize (is_human_readable = {human}) {:?}: {:?} vs {:?}", s, a, b)); }
+    }
     // Serialize: exactly what String serialises to
     let a = serde_json::to_string(&LeanString::from(s)).unwrap();
     let b = serde_json::to_string(&String::from(s)).unwrap();
